@@ -3,6 +3,7 @@
 // Both drive private members through the guarded accessor (GMGPOLAR_VERIF) and vary the object's HISTORY
 // (junk-filled work vectors, previous cycles, previous solves).
 #include "harness/solver_cfg.h"
+#include <functional>
 
 using namespace hs;
 typedef GMGPolarVerifAccess ACC;
@@ -70,13 +71,16 @@ Value gen_cycles(uint64_t seed, const std::string& tier)
 {
     Rng g(sim::mix(seed, 0xC10));
     SolverOpts o = small_opts(g, 4);
-    o.fmg        = g.chance(0.3);
+    o.fmg        = g.chance(0.45);
     o.pre        = g.range(0, 3);
     o.post       = g.range(0, 3);
     Value p      = Value::object();
     p["opts"]    = o.to_json();
     p["cycle"]   = g.range(0, 2);
-    p["mode"]    = g.range(0, 2); // 0 fixed point, 1 two-level algebraic correction, 2 junk / history independence
+    // 0 fixed point (depth 0), 1 two-level algebraic correction, 2 junk / history independence,
+    // 3 equals the textbook recursion assembled from the public operators, 4 fixed point when entered at depth d >= 1
+    p["mode"]    = g.range(0, 4);
+    p["depth"]   = g.range(1, 3);
     p["junk"]    = g.range(0, 3);
     p["seed_u"]  = (long long)(g.next() >> 1);
     p["kind_u"]  = g.range(0, 1);
@@ -175,6 +179,162 @@ void run_cycles(const Value& plan, Result& r)
         ACC::cycle(obj, ctype, ex, 0, l0.solution(), l0.rhs(), l0.residual());
     };
 
+    if (mode == 3) {
+        /* (d) the cycle equals the textbook recursion (V: one, W: two recursive calls, F: F then V; pre-smooth, restrict
+           the (extrapolated) residual, recurse or solve directly, prolongate, correct, post-smooth) assembled by the
+           harness from the PUBLIC operators of the object's levels.  Covers what the fixed-point test cannot see: the
+           second visit of a coarse level with a non-zero iterate. */
+        Interpolation& I = ACC::interpolation(s);
+        const bool fgs   = ACC::full_grid_smoothing(s);
+        std::function<void(int, int, bool, Vector<double>&, const Vector<double>&)> ref;
+        ref = [&](int d, int type, bool exl, Vector<double>& u, const Vector<double>& f) {
+            Level& l  = lv[d];
+            Level& nl = lv[d + 1];
+            const int nd = l.grid().numberOfNodes(), nn = nl.grid().numberOfNodes();
+            Vector<double> tmp(nd), res(nd), rc(nn);
+            auto smooth = [&]() {
+                if (d == 0 && exl && !fgs)
+                    l.extrapolatedSmoothing(u, f, tmp);
+                else
+                    l.smoothing(u, f, tmp);
+            };
+            for (int i = 0; i < o.pre; i++)
+                smooth();
+            l.computeResidual(res, f, u);
+            if (exl) {
+                Vector<double> uc(nn), rcc(nn);
+                I.applyExtrapolatedRestriction(l, nl, rc, res);
+                I.applyInjection(l, nl, uc, u);
+                nl.computeResidual(rcc, nl.rhs(), uc);
+                linear_combination(rc, 4.0 / 3.0, rcc, -1.0 / 3.0);
+            }
+            else
+                I.applyRestriction(l, nl, rc, res);
+            Vector<double> e(nn);
+            if (d + 1 == L - 1) {
+                e = rc;
+                nl.directSolveInPlace(e);
+            }
+            else {
+                assign(e, 0.0);
+                if (type == 0)
+                    ref(d + 1, 0, false, e, rc);
+                else if (type == 1) {
+                    ref(d + 1, 1, false, e, rc);
+                    ref(d + 1, 1, false, e, rc);
+                }
+                else {
+                    ref(d + 1, 2, false, e, rc);
+                    ref(d + 1, 0, false, e, rc);
+                }
+            }
+            Vector<double> corr(nd);
+            if (exl)
+                I.applyExtrapolatedProlongation(nl, l, corr, e);
+            else
+                I.applyProlongation(nl, l, corr, e);
+            add(u, corr);
+            for (int i = 0; i < o.post; i++)
+                smooth();
+        };
+        Vector<double> u0 = rand_vector(n, plan.at("seed_u").as_u64(), (int)plan.at("kind_u").as_int(0), 1.0, &g0);
+        Vector<double> want = u0;
+        {
+            SimRun sr(canonical_sim(), r);
+            ref(0, ctype, ex, want, lv[0].rhs());
+        }
+        // the object's own cycle, on a second object so that the reference's lazily factorised smoothers do not matter
+        Obj b2 = make_setup(o, r);
+        if (!b2.ok)
+            return;
+        ACC::full_grid_smoothing(*b2.s)    = fgs;
+        ACC::levels(*b2.s)[0].solution() = u0;
+        fill_scratch_with_junk(*b2.s, o, plan.at("seed_u").as_u64() + 3, (int)plan.at("junk").as_int(0), true);
+        one_cycle(*b2.s, plan.at("sim"));
+        r.nontrivial = true;
+        const Vector<double>& got = ACC::levels(*b2.s)[0].solution();
+        double sc = std::max(max_abs(want), max_abs(u0)), worst = 0;
+        int wi = -1;
+        for (int i = 0; i < n; i++) {
+            double dd = std::fabs(got[i] - want[i]);
+            if (std::isnan(dd) && !(std::isnan(got[i]) && std::isnan(want[i])))
+                dd = INFINITY;
+            if (dd > worst) {
+                worst = dd;
+                wi    = i;
+            }
+        }
+        if (!all_finite(want)) {
+            r.probe("reference_not_finite"); // e.g. no smoothing at all on many levels may overflow: nothing to compare
+            return;
+        }
+        double allowed = 256.0 * EPS * sc * (double)(1 << std::min(L, 6));
+        r.maxim("recursion_units", worst / (allowed + 1e-300));
+        if (!(worst <= allowed))
+            r.fail(fmt("C10.cycle_differs_from_textbook_recursion:%s%s", cn[ctype], ex ? "_extrapolated" : ""),
+                   fmt("levels=%d pre=%d post=%d: index %d cycle %.17g, recursion from public operators %.17g; %s", L,
+                       o.pre, o.post, wi, wi >= 0 ? got[wi] : 0.0, wi >= 0 ? want[wi] : 0.0, r.signature.c_str()));
+        return;
+    }
+    if (mode == 4) {
+        /* (e) the plain cycles are also entered at depth d >= 1 (the FMG start-up does): started from the exact solution
+           of level d's discrete system they must return it unchanged */
+        int d = (int)plan.at("depth").as_int(1);
+        if (!o.fmg || L < 3) {
+            r.signature += " [needs FMG right-hand sides and >= 3 levels]";
+            return;
+        }
+        d = std::min(d, L - 2);
+        const PolarGrid& gd = lv[d].grid();
+        if (gd.numberOfNodes() > 2700)
+            return;
+        model::RefOperator Ad;
+        Ad.build(gd, *prob.geometry, *prob.coeff, o.dirbc);
+        std::vector<double> fd, ud;
+        Ad.rhs(*prob.source, *prob.bc, fd);
+        // the level's discretised right-hand side equals the reference one
+        for (int m = 0; m < Ad.n; m++)
+            if (std::fabs(fd[m] - lv[d].rhs()[Ad.to_grid[m]]) > 32 * EPS * std::fabs(fd[m]) + 1e-300) {
+                r.fail("C10.coarse_rhs_differs_from_reference", fmt("level %d node %d; %s", d, m, r.signature.c_str()));
+                break;
+            }
+        if (!Ad.solve(fd, ud)) {
+            r.fail("model.singular", r.signature);
+            return;
+        }
+        Ad.to_lib(ud, lv[d].solution());
+        // dirty scratch from a previous cycle at this depth
+        fill_scratch_with_junk(s, o, plan.at("seed_u").as_u64(), (int)plan.at("junk").as_int(0), false);
+        Ad.to_lib(ud, lv[d].solution());
+        {
+            SimRun sr(plan.at("sim"), r);
+            ACC::cycle(s, ctype, false, d, lv[d].solution(), lv[d].rhs(), lv[d].residual());
+        }
+        r.nontrivial = true;
+        r.probe(fmt("entered_at_depth_%d", d));
+        std::vector<double> u1, dd(Ad.n), Adv, absu;
+        Ad.to_model(lv[d].solution(), u1);
+        bool finite = true;
+        for (int m = 0; m < Ad.n; m++) {
+            dd[m] = u1[m] - ud[m];
+            if (!std::isfinite(u1[m]))
+                finite = false;
+        }
+        Ad.apply(dd, Adv);
+        Ad.apply_abs(ud, absu);
+        double sc = 0, got = 0;
+        for (int m = 0; m < Ad.n; m++) {
+            sc  = std::max(sc, absu[m] + std::fabs(fd[m]));
+            got = std::max(got, std::fabs(Adv[m]));
+        }
+        double allowed = CB * MB * EPS * sc * 16.0 * (o.pre + o.post + 2) * (double)(1 << std::min(L, 6));
+        r.maxim("fixed_point_units_depth", got / (allowed + 1e-300));
+        if (!finite || !(got <= allowed))
+            r.fail(fmt("C10.exact_solution_not_fixed_point_at_depth:%s", cn[ctype]),
+                   fmt("entered at depth %d of %d levels: ||A_d (cycle(u*) - u*)||_inf = %.3e > %.3e; %s", d, L, got,
+                       allowed, r.signature.c_str()));
+        return;
+    }
     if (mode == 0) {
         /* (a) started from the exact solution of the system it iterates on, a cycle returns it unchanged */
         if (n > 2700 || (ex && n > 1400)) {
